@@ -1,4 +1,4 @@
 Require Import ExtrOcamlBasic ExtrOcamlNativeString.
 Require Import MPSV.Conc.PoolModel MPSV.Conc.PoolWitness.
-Extraction "../ocaml/pool.ml" step step_d init chk_all chk_conservation chk_busy chk_barrier dead_state
-  is_exited quiescent witness_limit_running example_round.
+Extraction "../ocaml/pool.ml" step step_d init init_r chk_all chk_conservation chk_busy chk_barrier chk_final dead_state
+  is_exited quiescent witness_limit_running example_round example_nested example_inline example_worker_inline example_repaired.
